@@ -67,6 +67,10 @@ def main():
         else:
             run(['git', '-C', '/repo', 'worktree', 'remove', '--force', repo])
         subprocess.run(['rm', '-rf', os.path.join('/tmp', 'seedout_%s' % sid)])
+        # another seedtest may be running for other ids: merge into the file as it is now
+        cur = json.load(open(resp)) if os.path.exists(resp) else {}
+        cur[sid] = results[sid]
+        results = cur
         json.dump(results, open(resp, 'w'), indent=1, sort_keys=True)
     det = sum(1 for v in results.values() if v.get('detected'))
     print('seeded changes detected: %d / %d' % (det, len(results)))
